@@ -505,9 +505,24 @@ example : ¬ TreeOK badEnv ∧
     ((badEnv.block 1).height : Int) ≤ (hrun badEnv {} [.play 0 1, .play 0 2]).irrev ∧
     1 ∉ chainOf badEnv (hrun badEnv {} [.play 0 1, .play 0 2]).pointer := by decide
 
--- restart: a node whose state lags behind its ledger (the ledger tip is block 4, the state stands on block 2 after the refused
--- walk) is synchronised by ONE non-pruning walk; the height does not go down
-example : ∀ (n : Node), n.s = hrun fkEnv {} (fkOps.take 5) → n.s.irrev ≤ (recover fkEnv n).1.s.irrev :=
-  fun n _ => restart_irrev_mono fkEnv n
+-- restart and crash points. The node has played the trunk (pointer 4, irreversible height 2); its ledger has meanwhile
+-- switched to the fork on block 2 (tip 25). History: a walk to the deep fork on block 1 (refused at block 2, after the write
+-- groups that undo 4 and 3), then the synchronising walk to 25. What is on disk after each write group — pointer and
+-- irreversible height — and what the restart makes of it:
+private def fkNode : Node :=
+  { l := { tip := 25, trunkHeight := 5 }, s := hrun fkEnv {} [.play 0 1, .play 0 2, .play 0 3, .play 0 4] }
+private def fkCrashOps : List Op := [.walk 15 false, .walk 25 false]
+
+example : PruneFree fkCrashOps ∧
+    (crashStates fkEnv fkNode fkCrashOps).map (fun x => (x.s.pointer, x.s.irrev)) =
+      [(4, 2), (4, 2), (3, 2), (2, 2), (2, 2), (2, 2), (23, 2), (24, 2), (25, 3), (25, 3)] ∧
+    ∀ x ∈ crashStates fkEnv fkNode fkCrashOps,
+      (recover fkEnv x).2 = true ∧ (recover fkEnv x).1.s.pointer = 25 ∧ (recover fkEnv x).1.s.irrev = 3 := by decide
+-- the theorem applied: block 2, irreversible at the start, is on the recovered chain whatever the crash point
+example : ∀ x ∈ crashStates fkEnv fkNode fkCrashOps, 2 ∈ chainOf fkEnv (recover fkEnv x).1.s.pointer :=
+  fun x hx => (crash_history_restart_safe fkEnv (by decide) fkNode fkCrashOps (by decide) 2 (by decide) (by decide) x hx).1
+-- a restart at a quiescent moment (the last crash state: pointer = ledger tip) writes nothing
+example : recover fkEnv (run fkEnv fkNode fkCrashOps) = (run fkEnv fkNode fkCrashOps, true) :=
+  (restart_quiescent fkEnv _ (by decide)).1
 
 end XV.C17
